@@ -1,7 +1,8 @@
 SPECIFICATION Spec
 CONSTANTS
+  Dev = {"dedup-succs"}
   MaxCalls = 3
-  AsImplemented = TRUE
-INVARIANTS NoUseLeft
+  MaxOps = 5
+INVARIANTS SuccsLive
 VIEW View
 CHECK_DEADLOCK FALSE
